@@ -134,6 +134,7 @@ func main() {
 		for _, f := range findings {
 			if f.Status == "known" {
 				known[f.ID] = true
+				activeKnown += f.ID + ","
 			}
 		}
 	}
@@ -759,7 +760,7 @@ func nativeReplay(repo, verif string, replayOverlay map[string]string, cfg *chec
 		os.Remove(out)
 		cmd := exec.Command("go", "test", "-vet=off", "-count=1", "-overlay", ovFile, "-run", "^TestZZVerifReplay$", "-timeout", "20m", p.path)
 		cmd.Dir = repo
-		cmd.Env = append(os.Environ(), "GOFLAGS=-mod=mod", "GOPROXY=off", "GOSUMDB=off", "GOTOOLCHAIN=local", "ZZVERIF_CASES="+casesFile, "ZZVERIF_OUT="+out)
+		cmd.Env = append(os.Environ(), "GOFLAGS=-mod=mod", "GOPROXY=off", "GOSUMDB=off", "GOTOOLCHAIN=local", "ZZVERIF_CASES="+casesFile, "ZZVERIF_OUT="+out, "ZZVERIF_KNOWN="+activeKnown)
 		o, err := cmd.CombinedOutput()
 		logs.WriteString(string(o))
 		if err != nil {
@@ -934,6 +935,7 @@ func fileHash(p string) string {
 
 var solverName = "z3"
 var solver2Kind string
+var activeKnown string
 var globalSiteNames []string
 var mirrorMu sync.Mutex
 var mirrorTotals struct{ Checked, Agree, Disagree, Unknown int }
